@@ -34,6 +34,9 @@ PATCHES = ['hand_made.xml']
 
 NEEDS = {CONTENT: {'&', '<'}, ATTR_DQ: {'&', '<', '"'}, ATTR_SQ: {'&', '<', "'"}}
 
+# filters that map escaped text to escaped text (entities produced by html.escape are lower-case)
+ESCAPE_PRESERVING = {'lower', 'trim', 'default', 'd', 'string'}
+
 # filters whose *output alphabet* cannot contain & < > " ' whatever the input
 INERT_FILTERS = {
     'isoDateTime': 'digits, - : . T Z +',
@@ -290,10 +293,27 @@ def r05_1(rep: Report, ts: TemplateSet, strength: dict[str, set[str]]) -> None:
         if last in INERT_FILTERS:
             rep.ok(rid, construct, key, f'{last}: {INERT_FILTERS[last]}')
             continue
+        # strength accumulated along the chain; a filter applied *after* an escaper that cuts,
+        # re-cases or rewrites text (truncate, upper, replace, ...) can split `&amp;` or re-create
+        # markup, so it discards what the escaper established
         got: set[str] = set()
+        undone: str | None = None
         for f in s.filters:
-            got |= strength.get(f, set())
+            if f in strength:
+                got |= strength[f]
+            elif f in ESCAPE_PRESERVING:
+                pass
+            elif got:
+                undone = f
+                got = set()
         need_set = NEEDS[s.mode]
+        if undone and not need_set <= got:
+            where = 'element content' if s.mode == CONTENT else f'attribute {s.tag}@{s.attr}'
+            rep.fail(rid, construct, key,
+                     f'`{s.expr}` is escaped and then passed through `|{undone}`, which is not an '
+                     f'escape-preserving filter ({sorted(ESCAPE_PRESERVING)}): cutting or rewriting escaped '
+                     f'text can leave a bare `&` or split an entity in {where}')
+            continue
         if kind in ('num', 'enum', 'file') and not s.filters:
             rep.ok(rid, construct, key, f'{kind}: {why}'.rstrip(': '))
             continue
